@@ -281,7 +281,7 @@ def groups(tier):
     q = tier == 'quick'
     g = {
         'solver-objects-of-the-streams-package': (g_package(), dict(max_paths=100000)),
-        'tp-iteration-fixed-point': (g_tp_fixed_point(), dict(qtimeout_ms=20000, stubs_required=('gamma',))),
+        'tp-iteration-fixed-point': (g_tp_fixed_point(), dict(qtimeout_ms=40000, stubs_required=('gamma',))),
         'spec-bookkeeping': (g_bookkeeping(['TP', 'TV', 'PV'], [1, 2] if not q else [1], ((0, 0), (1, 1)), ('both',)),
                              dict(max_paths=1000000, task_budget_s=120)),
         'spec-bookkeeping-TP-multicomponent': (g_bookkeeping(['TP'], [2], ((0, 0), (1, 1)), ('both',)), dict(max_paths=1000000, task_budget_s=120)),
